@@ -13,7 +13,7 @@ using namespace sim;
 enum { W_INSERT = 0, W_FOI, W_ERASE, W_FIND, W_VERIFY, W_ITER, W_GRACE, W_ANNOUNCE, R_FIND, OP_N };
 static const char *op_names[OP_N] = {"insert", "find_or_insert", "erase", "wfind", "verify_all", "iterate", "grace", "announce", "find"};
 
-static int P_case1, P_case2, P_case3, P_split_top, P_find_during_split, P_reader_found, P_reader_null, P_mustfind_checked, P_reinserts, P_erased_never_destroyed, P_skipped, P_grace_ok, P_grace_fail, P_iter, P_foi_present, P_stale_found_erased, P_lifetime_anomaly;
+static int P_case1, P_case2, P_case3, P_split_top, P_find_during_split, P_reader_found, P_reader_null, P_mustfind_checked, P_reinserts, P_erased_never_destroyed, P_skipped, P_grace_ok, P_grace_fail, P_iter, P_foi_present, P_stale_found_erased, P_lifetime_anomaly, P_plain, P_val_dtor_in_run;
 
 struct Ins { uint64_t key, seq; char *addr; uint64_t inv, ret; uint32_t ret_wclk; uint64_t erase_inv, erase_ret; };
 struct Blk { char *p; size_t n; bool freed; };
@@ -33,7 +33,10 @@ struct RadixEngine : Engine {
 	int nreaders = 0, allocs_in_op = 0;
 	bool inflight[MAXT]; uint64_t opcount[MAXT]; bool rdone[MAXT];
 	VC gp_chan, ann_chan, rchan[MAXT];
-	bool destroyed = false;
+	bool destroyed = false, plain = false;
+	std::set<const char *> alive; // mode 0: value objects whose constructor has run and whose destructor has not
+	void val_ctor(void *p) { alive.insert((const char *)p); }
+	void val_dtor(void *p) { if (!destroyed) probe(P_val_dtor_in_run); alive.erase((const char *)p); }
 	std::string profile;
 
 	RadixEngine() {
@@ -44,6 +47,7 @@ struct RadixEngine : Engine {
 		P_reinserts = probe_id("reinsert_after_grace"); P_erased_never_destroyed = probe_id("erased_value_never_destroyed"); P_skipped = probe_id("ops_skipped_precondition");
 		P_grace_ok = probe_id("grace_period_completed"); P_grace_fail = probe_id("grace_period_gave_up"); P_iter = probe_id("iterations"); P_foi_present = probe_id("find_or_insert_on_present_key");
 		P_stale_found_erased = probe_id("relaxed_reader_found_erased_value"); P_lifetime_anomaly = probe_id("node_lifetime_anomaly(C16_radix_clause:not_claimed,not_reported)");
+		P_plain = probe_id("runs_with_argument-less_insert_of_a_plain_value_type"); P_val_dtor_in_run = probe_id("value_destructor_ran_while_the_tree_was_in_use");
 	}
 	const char *name() override { return "simradix"; }
 	const char *op_name(int k) override { return k >= 0 && k < OP_N ? op_names[k] : "?"; }
@@ -114,6 +118,7 @@ struct RadixEngine : Engine {
 			int n = 3 + (int)rng.below(tier ? 60 : 25);
 			for (int i = 0; i < n; i++) { Op o; o.task = t; o.id = i; o.kind = R_FIND; o.a[0] = key(); o.a[1] = rng.chance(1, 5); p.ops.push_back(o); }
 		}
+		if (c09 && rng.chance(1, 4)) p.knobs["plain"] = 1; // plain value type, inserted without constructor arguments
 		pick_strategy(rng, p, !c09);
 	}
 
@@ -124,8 +129,9 @@ struct RadixEngine : Engine {
 		for (auto &o : p.ops) if (o.kind != W_VERIFY && o.kind != W_ITER && o.kind != W_GRACE && o.kind != W_ANNOUNCE) universe.insert((uint64_t)o.a[0]);
 		for (int t = 0; t < MAXT; t++) { inflight[t] = false; opcount[t] = 0; rdone[t] = false; rchan[t].clear(); }
 		gp_chan.clear(); ann_chan.clear();
+		plain = p.knob("plain", 0) != 0 && p.ntasks == 1; alive.clear(); if (plain) probe(P_plain);
 		tree = obj_alloc(sut_tree_size(), 64);
-		sut_tree_construct(tree);
+		sut_tree_construct(tree, plain ? 1 : 0);
 	}
 
 	void *do_alloc(size_t n) {
@@ -147,6 +153,7 @@ struct RadixEngine : Engine {
 
 	void check_value(const char *what, char *p, uint64_t k, uint64_t seq) {
 		if (!in_arena(p) || !in_node(p)) violation("map_wrong_result", "%s: returned pointer %p is not inside a node the tree allocated", what, p);
+		if (!plain && !alive.count(p)) violation("map_wrong_result", "%s(key 0x%llx): the value object at +0x%llx has been destroyed (or was never constructed)", what, (unsigned long long)k, (unsigned long long)off(p));
 		RVal v; user_read(p, sizeof v); memcpy(&v, p, sizeof v);
 		if (v.key != k || v.seq != seq || v.check != (~k ^ seq))
 			violation("map_wrong_result", "%s(key 0x%llx): value at +0x%llx holds {key 0x%llx, seq %llu}, expected seq %llu", what, (unsigned long long)k, (unsigned long long)off(p), (unsigned long long)v.key, (unsigned long long)v.seq, (unsigned long long)seq);
@@ -189,6 +196,13 @@ struct RadixEngine : Engine {
 		if (allocs_in_op == 1) probe(P_case1); else if (allocs_in_op == 2) { probe(P_case2); if (top_differs) probe(P_split_top); if (reader_inflight) probe(P_find_during_split); } else probe(P_case3);
 		if (!p) violation("map_wrong_result", "insert(0x%llx) returned null", (unsigned long long)k);
 		for (auto &kv : present) if (ins[kv.second].addr == p) violation("map_duplicate_value", "insert(0x%llx) returned +0x%llx which is the address of present key 0x%llx", (unsigned long long)k, (unsigned long long)off(p), (unsigned long long)kv.first);
+		if (plain) {
+			// inserted without constructor arguments: a NEW value-initialised object, whatever the slot held before; the user fills it in
+			if (!in_arena(p) || !in_node(p)) violation("map_wrong_result", "insert: returned pointer %p is not inside a node the tree allocated", p);
+			RVal z; user_read(p, sizeof z); memcpy(&z, p, sizeof z);
+			if (z.key || z.seq || z.check) violation("map_wrong_result", "insert(0x%llx) without arguments returned a value holding {0x%llx, %llu, 0x%llx} instead of a value-initialised one (the value most recently inserted is a new object)", (unsigned long long)k, (unsigned long long)z.key, (unsigned long long)z.seq, (unsigned long long)z.check);
+			RVal v{k, ins[idx].seq, ~k ^ ins[idx].seq}; user_write(p, sizeof v); memcpy(p, &v, sizeof v);
+		}
 		check_value("insert", p, k, ins[idx].seq);
 		present[k] = idx; erase_gen.erase(k);
 	}
@@ -230,6 +244,7 @@ struct RadixEngine : Engine {
 		if (p) {
 			probe(P_reader_found);
 			if (!in_arena(p) || !in_node(p)) violation("reader_bad_value", "find(0x%llx) returned %p which is not inside a node", (unsigned long long)k, p);
+			if (!plain && !alive.count(p)) violation("reader_destroyed_value", "reader %d: find(0x%llx) returned +0x%llx, a value object whose destructor has already run: not a fully initialised value", me, (unsigned long long)k, (unsigned long long)off(p));
 			RVal v; user_read(p, sizeof v); memcpy(&v, p, sizeof v);
 			uint64_t ret = ++evseq; (void)ret;
 			if (v.key != k || v.check != (~v.key ^ v.seq) || v.seq == 0 || v.seq > ins.size() || ins[v.seq - 1].key != k)
@@ -330,4 +345,6 @@ struct RadixEngine : Engine {
 
 extern "C" void *radix_alloc(size_t n) { return G->do_alloc(n); }
 extern "C" void radix_free(void *p, size_t n) { G->do_free(p, n); }
+extern "C" void radix_val_ctor(void *p) { G->val_ctor(p); }
+extern "C" void radix_val_dtor(void *p) { G->val_dtor(p); }
 Engine *sim::make_engine() { return new RadixEngine(); }
